@@ -5,6 +5,10 @@ use crate::{PropRun, Tier};
 use serde_json::{json, Value};
 
 pub mod c01;
+pub mod c02;
+pub mod c10;
+pub mod c14;
+pub mod c15;
 
 pub fn threads() -> usize {
     std::env::var("VERIF_THREADS").ok().and_then(|s| s.parse().ok()).unwrap_or(16)
@@ -21,6 +25,10 @@ pub fn guarded<T, F: FnOnce() -> T>(what: &str, f: F) -> Result<T, Failure> {
 pub fn run(id: &str, tier: Tier, seed: u64, known: &Known) -> PropRun {
     match id {
         "C01" => c01::run(tier, seed, known),
+        "C02" => c02::run(tier, seed, known),
+        "C10" => c10::run(tier, seed, known),
+        "C14" => c14::run(tier, seed, known),
+        "C15" => c15::run(tier, seed, known),
         _ => {
             let mut r = PropRun::new("exploration", "");
             r.inconclusive = Some(format!("unknown property {}", id));
@@ -33,6 +41,10 @@ pub fn replay(id: &str, part: &str, bytes: &[u8], case: &Value) -> Verdict {
     let mut st = crate::stats::Stats::new();
     match id {
         "C01" => c01::replay(part, bytes, case, &mut st),
+        "C02" => c02::replay(part, bytes, case, &mut st),
+        "C10" => c10::replay(part, bytes, case, &mut st),
+        "C14" => c14::replay(part, bytes, case, &mut st),
+        "C15" => c15::replay(part, bytes, case, &mut st),
         _ => Err(Failure::new("unknown-property", json!({"id": id}))),
     }
 }
